@@ -202,7 +202,7 @@ func (te *tmplEnv) truth(v tval) *Term {
 		if isByte(u.Elem()) {
 			return Neq(v.t, StrT(""))
 		}
-		return Gt(SliceLen(v.t), IntT(0))
+		return Not(Eq(SliceLen(v.t), IntT(0)))
 	case *types.Map:
 		_, _, ln := e.mapComps(u)
 		return And(Neq(v.t, IntT(0)), Gt(Select(e.comp(te.c.st, ln), v.t), IntT(0)))
@@ -423,8 +423,13 @@ func (te *tmplEnv) callFunc(name string, args []tval) (tval, bool) {
 		te.fail("function " + name)
 		return tval{}, false
 	}
+	if fv.Sort == IfaceS {
+		if tag := IfaceTag(fv); tag.Op == "int" {
+			fv = e.unboxIface(te.c.st, e.tr.typeOfTag(int(tag.IVal.Int64())), fv)
+		}
+	}
 	if fv.Op != "int" {
-		te.fail("function value of " + name + " not concrete")
+		te.fail("function value of " + name + " not concrete: " + fv.Op)
 		return tval{}, false
 	}
 	cl := e.closureOf(fv.IVal.Int64())
@@ -456,6 +461,9 @@ func (te *tmplEnv) callFunc(name string, args []tval) (tval, bool) {
 	if r == nil {
 		te.fail("no result from " + name)
 		return tval{}, false
+	}
+	if len(ts) == 1 {
+		e.callHist[fmt.Sprintf("%s(%d)", fnName(cl.fn), ts[0].id)] = r
 	}
 	return tval{r, res.At(0).Type()}, true
 }
@@ -521,10 +529,15 @@ func (te *tmplEnv) rangeNode(x *parse.RangeNode, dot tval) {
 				return
 			}
 		}
-		te.fail("range over a slice of symbolic length with a complex body")
+		r := Fresh("tmplrange", StringS)
+		e.callHist["range:"+x.Pipe.Cmds[0].String()] = r
+		te.emit(r)
+		e.note("template range over a slice of symbolic length with a complex body: rendered text left unconstrained")
 	case *types.Map:
 		has, val, _ := e.mapComps(u)
-		te.emit(uf(fmt.Sprintf("tmplMapRange:%s:%d", te.name, x.Pos), StringS, Select(e.comp(te.c.st, has), v.t), Select(e.comp(te.c.st, val), v.t), v.t))
+		r := uf(fmt.Sprintf("tmplMapRange:%s:%d", te.name, x.Pos), StringS, Select(e.comp(te.c.st, has), v.t), Select(e.comp(te.c.st, val), v.t), v.t)
+		e.callHist["range:"+x.Pipe.Cmds[0].String()] = r
+		te.emit(r)
 		e.note("template range over a map: rendered as an uninterpreted fold over the sorted keys")
 	default:
 		te.fail("range over " + v.T.String())
